@@ -486,6 +486,23 @@ impl TCheck for C08 {
                 });
             }
         }
+        // one work in sixteen has a long run of small compressed clusters (150..400 of them, one or
+        // two blobs each, 2..5 workers): many more clusters than any queue, window or table of a
+        // few dozen slots holds - with a stalled worker (scheduler strategy "starve") one cluster
+        // is still being compressed while hundreds dispatched after it are written
+        let long_run = work % 16 == 6 && !one_cpu && !empty_run;
+        let comp = if long_run && comp == Comp::None { Comp::Lz4(1) } else { comp };
+        let (workers, max_blobs) = if long_run { (rng.range(2, 5), rng.range(1, 2)) } else { (workers, max_blobs) };
+        if long_run {
+            for k in 0..rng.range(150, 400) as usize {
+                contents.push(ContentSpec {
+                    bytes: Arc::new(gen::gen_bytes(&mut rng, 900 + k, 20 + k % 41, Flavor::Text)),
+                    hint: Hint::Yes,
+                    src: SrcKind::Cursor,
+                    pack: 1,
+                });
+            }
+        }
         let mut knobs = vec![
             ("creator_workers", workers),
             ("cluster_max_blobs", max_blobs),
@@ -522,7 +539,7 @@ impl TCheck for C08 {
             // one work in eight (never the giants)
             abandon: work % 8 == 3 && !(big || oversize || giant_one || giant_two),
         });
-        let desc = json!({"creator_dropped_without_finalize": w.abandon, "giant_above_128_MiB": giant_one, "two_giants_above_256_MiB_one_worker": giant_two, "content_larger_than_the_whole_dispatch_queue": oversize, "one_cpu_host_no_worker_knob": one_cpu, "run_of_empty_compressible_contents": empty_run, "big_incompressible_content": big, "hard_input_error_at_read_call": hard_err_call, "comp": comp.name(), "contents": w.contents.iter().map(|c| format!("{}{}{}", c.bytes.len(), match c.hint {Hint::Yes=>"Y",Hint::No=>"N",Hint::Detect=>"D"}, match c.src {SrcKind::Cursor=>"c",SrcKind::File=>"f",SrcKind::FileRange=>"r",SrcKind::Sim=>"s",SrcKind::FilePeeked=>"p",SrcKind::FileRangeToEnd=>"e",SrcKind::SharedArchive=>"a",SrcKind::FileReplaced=>"x"})).collect::<Vec<_>>(),
+        let desc = json!({"long_run_of_small_compressed_clusters": long_run, "creator_dropped_without_finalize": w.abandon, "giant_above_128_MiB": giant_one, "two_giants_above_256_MiB_one_worker": giant_two, "content_larger_than_the_whole_dispatch_queue": oversize, "one_cpu_host_no_worker_knob": one_cpu, "run_of_empty_compressible_contents": empty_run, "big_incompressible_content": big, "hard_input_error_at_read_call": hard_err_call, "comp": comp.name(), "contents": w.contents.iter().map(|c| format!("{}{}{}", c.bytes.len(), match c.hint {Hint::Yes=>"Y",Hint::No=>"N",Hint::Detect=>"D"}, match c.src {SrcKind::Cursor=>"c",SrcKind::File=>"f",SrcKind::FileRange=>"r",SrcKind::Sim=>"s",SrcKind::FilePeeked=>"p",SrcKind::FileRangeToEnd=>"e",SrcKind::SharedArchive=>"a",SrcKind::FileReplaced=>"x"})).collect::<Vec<_>>(),
                           "workers": workers, "cluster_max_blobs": max_blobs, "cluster_max_size": max_size});
         let w2 = Arc::clone(&w);
         Prepared {
